@@ -17,6 +17,7 @@ package pipeline
 // the in-memory instance and the name index exactly as they were)
 //verif:func (*Service).Get(s, ctx, id) (inst, err)
 //verif:ensures[found] err == nil ==> has(s.instances, id) && inst == s.instances[id]
+//verif:ensures[listed-is-found] has(s.instances, id) ==> err == nil
 //verif:modifies nothing
 
 //verif:def sameConns(s, id) = len(s.instances[id].ConnectorIDs) == old(len(s.instances[id].ConnectorIDs)) && forall k in [0, len(s.instances[id].ConnectorIDs)): s.instances[id].ConnectorIDs[k] == old(s.instances[id].ConnectorIDs[k])
@@ -24,6 +25,11 @@ package pipeline
 //verif:def sameRest(s, id) = s.instances[id].Config == old(s.instances[id].Config) && s.instances[id].DLQ == old(s.instances[id].DLQ) && s.instances[id].UpdatedAt == old(s.instances[id].UpdatedAt)
 
 //verif:func (*Service).AddConnector(s, ctx, pipelineID, connectorID) (inst, err)
+//verif:ensures[appends] err == nil ==> len(s.instances[pipelineID].ConnectorIDs) == old(len(s.instances[pipelineID].ConnectorIDs)) + 1 && s.instances[pipelineID].ConnectorIDs[len(s.instances[pipelineID].ConnectorIDs) - 1] == connectorID && forall m in [0, old(len(s.instances[pipelineID].ConnectorIDs))): s.instances[pipelineID].ConnectorIDs[m] == old(s.instances[pipelineID].ConnectorIDs[m])
+//verif:ensures[unchanged-on-error] err != nil && has(s.instances, pipelineID) ==> len(s.instances[pipelineID].ConnectorIDs) == old(len(s.instances[pipelineID].ConnectorIDs)) && forall m in [0, len(s.instances[pipelineID].ConnectorIDs)): s.instances[pipelineID].ConnectorIDs[m] == old(s.instances[pipelineID].ConnectorIDs[m])
+//verif:ensures[in-place-or-fresh] err == nil ==> !isnil(s.instances[pipelineID].ConnectorIDs) && (base(s.instances[pipelineID].ConnectorIDs) == old(base(s.instances[pipelineID].ConnectorIDs)) || fresh(s.instances[pipelineID].ConnectorIDs))
+//verif:ensures[fails-only-on-store-error] old(has(s.instances, pipelineID)) && err != nil ==> called("(*Store).Set")
+//verif:modifies s.instances[pipelineID].ConnectorIDs[*], s.instances[pipelineID].ConnectorIDs, s.instances[pipelineID].UpdatedAt
 //verif:assume forall i :: has(s.instances, i) ==> base(s.instances[i].ConnectorIDs) != base(s.instances[i].ProcessorIDs) || isnil(s.instances[i].ConnectorIDs) because "the two id lists of an instance are separate allocations (built by append / JSON decoding), never sub-slices of one another"
 //verif:ensures[all-or-nothing-connectors] err != nil && has(s.instances, pipelineID) ==> sameConns(s, pipelineID)
 //verif:ensures[all-or-nothing-processors] err != nil && has(s.instances, pipelineID) ==> sameProcs(s, pipelineID)
@@ -31,6 +37,11 @@ package pipeline
 //verif:ensures[effect] err == nil ==> succeeded("(*Store).Set") && len(inst.ConnectorIDs) == old(len(s.instances[pipelineID].ConnectorIDs)) + 1
 
 //verif:func (*Service).AddProcessor(s, ctx, pipelineID, processorID) (inst, err)
+//verif:ensures[appends] err == nil ==> len(s.instances[pipelineID].ProcessorIDs) == old(len(s.instances[pipelineID].ProcessorIDs)) + 1 && s.instances[pipelineID].ProcessorIDs[len(s.instances[pipelineID].ProcessorIDs) - 1] == processorID && forall m in [0, old(len(s.instances[pipelineID].ProcessorIDs))): s.instances[pipelineID].ProcessorIDs[m] == old(s.instances[pipelineID].ProcessorIDs[m])
+//verif:ensures[unchanged-on-error] err != nil && has(s.instances, pipelineID) ==> len(s.instances[pipelineID].ProcessorIDs) == old(len(s.instances[pipelineID].ProcessorIDs)) && forall m in [0, len(s.instances[pipelineID].ProcessorIDs)): s.instances[pipelineID].ProcessorIDs[m] == old(s.instances[pipelineID].ProcessorIDs[m])
+//verif:ensures[in-place-or-fresh] err == nil ==> !isnil(s.instances[pipelineID].ProcessorIDs) && (base(s.instances[pipelineID].ProcessorIDs) == old(base(s.instances[pipelineID].ProcessorIDs)) || fresh(s.instances[pipelineID].ProcessorIDs))
+//verif:ensures[fails-only-on-store-error] old(has(s.instances, pipelineID)) && err != nil ==> called("(*Store).Set")
+//verif:modifies s.instances[pipelineID].ProcessorIDs[*], s.instances[pipelineID].ProcessorIDs, s.instances[pipelineID].UpdatedAt
 //verif:assume forall i :: has(s.instances, i) ==> base(s.instances[i].ConnectorIDs) != base(s.instances[i].ProcessorIDs) || isnil(s.instances[i].ConnectorIDs) because "the two id lists of an instance are separate allocations (built by append / JSON decoding), never sub-slices of one another"
 //verif:ensures[all-or-nothing-connectors] err != nil && has(s.instances, pipelineID) ==> sameConns(s, pipelineID)
 //verif:ensures[all-or-nothing-processors] err != nil && has(s.instances, pipelineID) ==> sameProcs(s, pipelineID)
@@ -38,6 +49,7 @@ package pipeline
 //verif:ensures[effect] err == nil ==> succeeded("(*Store).Set") && len(inst.ProcessorIDs) == old(len(s.instances[pipelineID].ProcessorIDs)) + 1
 
 //verif:func (*Service).UpdateDLQ(s, ctx, pipelineID, cfg) (inst, err)
+//verif:modifies s.instances[pipelineID].DLQ, s.instances[pipelineID].UpdatedAt
 //verif:ensures[all-or-nothing-connectors] err != nil && has(s.instances, pipelineID) ==> sameConns(s, pipelineID)
 //verif:ensures[all-or-nothing-processors] err != nil && has(s.instances, pipelineID) ==> sameProcs(s, pipelineID)
 //verif:ensures[all-or-nothing-config] err != nil && has(s.instances, pipelineID) ==> sameRest(s, pipelineID)
@@ -52,18 +64,34 @@ package pipeline
 //verif:call[store-before-memory] (*Service).updateOldStatusMetrics requires succeeded("(*Store).Delete")
 
 //verif:func (*Service).RemoveConnector(s, ctx, pipelineID, connectorID) (inst, err)
+//verif:ensures[removes-first-occurrence] err == nil ==> len(s.instances[pipelineID].ConnectorIDs) == old(len(s.instances[pipelineID].ConnectorIDs)) - 1 && exists x in [0, old(len(s.instances[pipelineID].ConnectorIDs))): old(s.instances[pipelineID].ConnectorIDs[x]) == connectorID && (forall m in [0, x): old(s.instances[pipelineID].ConnectorIDs[m]) != connectorID && s.instances[pipelineID].ConnectorIDs[m] == old(s.instances[pipelineID].ConnectorIDs[m])) && (forall m in [x, len(s.instances[pipelineID].ConnectorIDs)): s.instances[pipelineID].ConnectorIDs[m] == old(s.instances[pipelineID].ConnectorIDs[m + 1]))
+//verif:ensures[unchanged-on-error] err != nil && has(s.instances, pipelineID) ==> len(s.instances[pipelineID].ConnectorIDs) == old(len(s.instances[pipelineID].ConnectorIDs)) && forall m in [0, len(s.instances[pipelineID].ConnectorIDs)): s.instances[pipelineID].ConnectorIDs[m] == old(s.instances[pipelineID].ConnectorIDs[m])
+//verif:ensures[in-place-or-fresh] has(s.instances, pipelineID) ==> base(s.instances[pipelineID].ConnectorIDs) == old(base(s.instances[pipelineID].ConnectorIDs)) || fresh(s.instances[pipelineID].ConnectorIDs) || isnil(s.instances[pipelineID].ConnectorIDs)
+//verif:ensures[fails-only-if-unlisted-or-store-error] old(has(s.instances, pipelineID)) && (exists x in [0, old(len(s.instances[pipelineID].ConnectorIDs))): old(s.instances[pipelineID].ConnectorIDs[x]) == connectorID) && err != nil ==> called("(*Store).Set")
+//verif:modifies s.instances[pipelineID].ConnectorIDs[*], s.instances[pipelineID].ConnectorIDs, s.instances[pipelineID].UpdatedAt
+//verif:loop 0 vars k=rangeindex
+//verif:loop 0 invariant k < len(pl.ConnectorIDs) && forall m in [0, k + 1): pl.ConnectorIDs[m] != connectorID
 //verif:assume forall i :: has(s.instances, i) ==> base(s.instances[i].ConnectorIDs) != base(s.instances[i].ProcessorIDs) || isnil(s.instances[i].ConnectorIDs) because "the two id lists of an instance are separate allocations (built by append / JSON decoding), never sub-slices of one another"
 //verif:ensures[all-or-nothing-connectors] err != nil && has(s.instances, pipelineID) ==> sameConns(s, pipelineID)
 //verif:ensures[all-or-nothing-processors] err != nil && has(s.instances, pipelineID) ==> sameProcs(s, pipelineID)
 //verif:ensures[all-or-nothing-config] err != nil && has(s.instances, pipelineID) ==> sameRest(s, pipelineID)
 
 //verif:func (*Service).RemoveProcessor(s, ctx, pipelineID, processorID) (inst, err)
+//verif:ensures[removes-first-occurrence] err == nil ==> len(s.instances[pipelineID].ProcessorIDs) == old(len(s.instances[pipelineID].ProcessorIDs)) - 1 && exists x in [0, old(len(s.instances[pipelineID].ProcessorIDs))): old(s.instances[pipelineID].ProcessorIDs[x]) == processorID && (forall m in [0, x): old(s.instances[pipelineID].ProcessorIDs[m]) != processorID && s.instances[pipelineID].ProcessorIDs[m] == old(s.instances[pipelineID].ProcessorIDs[m])) && (forall m in [x, len(s.instances[pipelineID].ProcessorIDs)): s.instances[pipelineID].ProcessorIDs[m] == old(s.instances[pipelineID].ProcessorIDs[m + 1]))
+//verif:ensures[unchanged-on-error] err != nil && has(s.instances, pipelineID) ==> len(s.instances[pipelineID].ProcessorIDs) == old(len(s.instances[pipelineID].ProcessorIDs)) && forall m in [0, len(s.instances[pipelineID].ProcessorIDs)): s.instances[pipelineID].ProcessorIDs[m] == old(s.instances[pipelineID].ProcessorIDs[m])
+//verif:ensures[in-place-or-fresh] has(s.instances, pipelineID) ==> base(s.instances[pipelineID].ProcessorIDs) == old(base(s.instances[pipelineID].ProcessorIDs)) || fresh(s.instances[pipelineID].ProcessorIDs) || isnil(s.instances[pipelineID].ProcessorIDs)
+//verif:ensures[fails-only-if-unlisted-or-store-error] old(has(s.instances, pipelineID)) && (exists x in [0, old(len(s.instances[pipelineID].ProcessorIDs))): old(s.instances[pipelineID].ProcessorIDs[x]) == processorID) && err != nil ==> called("(*Store).Set")
+//verif:modifies s.instances[pipelineID].ProcessorIDs[*], s.instances[pipelineID].ProcessorIDs, s.instances[pipelineID].UpdatedAt
+//verif:loop 0 vars k=rangeindex
+//verif:loop 0 invariant k < len(pl.ProcessorIDs) && forall m in [0, k + 1): pl.ProcessorIDs[m] != processorID
 //verif:assume forall i :: has(s.instances, i) ==> base(s.instances[i].ConnectorIDs) != base(s.instances[i].ProcessorIDs) || isnil(s.instances[i].ConnectorIDs) because "the two id lists of an instance are separate allocations (built by append / JSON decoding), never sub-slices of one another"
 //verif:ensures[all-or-nothing-connectors] err != nil && has(s.instances, pipelineID) ==> sameConns(s, pipelineID)
 //verif:ensures[all-or-nothing-processors] err != nil && has(s.instances, pipelineID) ==> sameProcs(s, pipelineID)
 //verif:ensures[all-or-nothing-config] err != nil && has(s.instances, pipelineID) ==> sameRest(s, pipelineID)
 
 //verif:func (*Service).Update(s, ctx, pipelineID, cfg) (inst, err)
+//verif:ensures[returns-held-instance] err == nil ==> has(s.instances, pipelineID) && inst == s.instances[pipelineID]
+//verif:modifies s.instances[pipelineID].Config, s.instances[pipelineID].UpdatedAt, s.instanceNames[*]
 //verif:ensures[name-index-follows-rename] err == nil && old(has(s.instances, pipelineID)) ==> has(s.instanceNames, cfg.Name) && (old(s.instances[pipelineID].Config.Name) != cfg.Name ==> !has(s.instanceNames, old(s.instances[pipelineID].Config.Name)))
 //verif:assume s.instanceNames != nil because "NewService allocates the name index"
 //verif:ensures[all-or-nothing-connectors] err != nil && has(s.instances, pipelineID) ==> sameConns(s, pipelineID)
